@@ -84,6 +84,25 @@ def gen(c):
         for ln in ([1, 33] if c.quick else [1, 16, 33, 200, 255]):
             add({"op": "encrypt", "iface": "pre", "slot": slot, "pub": pub, "msg": rb(ln), "seed": 900 + len(lines)},
                 {"kind": "encrun", "what": "encrypt:pre%d:len%d" % (slot, ln), "iface": "pre", "d": d, "psize": 0, "slot": slot})
+    # nonces whose key stream is all zero for a 1-byte (2-byte: thorough) plaintext must not be used (GB/T 32918.4 step A5): the first nonce drawn is forced to such
+    # a value for every interface; and a nonce whose key stream EQUALS the plaintext (C2 all zero) is a perfectly good one
+    def find_k(want, ln):
+        k = 1000 + rng.randrange(1 << 20)
+        while True:
+            S = mul(k, P); t = kdf(i2b(S[0]) + i2b(S[1]), ln)
+            if want(t):
+                return k, t
+            k += 1
+    for ln in ((1,) if c.quick else (1, 2)):
+        if ln == 2 and c.quick:
+            continue
+        k0, _ = find_k(lambda t: not any(t), ln)
+        for iface, extra in (("der", {}), ("do", {}), ("ctx", {"chunks": "0"}), ("fixlen", {"psize": 69}), ("pre", {"slot": 0})):
+            add(dict({"op": "encrypt", "iface": iface, "pub": pub, "msg": rb(ln), "seed": 950 + len(lines), "first": k0.to_bytes(32, "little")}, **extra),
+                {"kind": "encrun", "what": "encrypt:%s:len%d:zero-keystream-nonce-first" % (iface, ln), "iface": iface, "d": d, "psize": extra.get("psize", 0), "slot": 0, "forced": k0})
+            k1, t1 = find_k(lambda t: any(t), ln)          # a fresh one per interface (the check below also looks for repeated C1)
+            add(dict({"op": "encrypt", "iface": iface, "pub": pub, "msg": t1, "seed": 960 + len(lines), "first": k1.to_bytes(32, "little")}, **extra),
+                {"kind": "encrun", "what": "encrypt:%s:len%d:keystream-equals-plaintext" % (iface, ln), "iface": iface, "d": d, "psize": extra.get("psize", 0), "slot": 0})
     # ---- interoperability: ciphertexts made by the reference decrypt in the library (all interfaces) ----
     for ln in ([1, 16, 33, 255] if c.quick else [1, 2, 16, 31, 32, 33, 100, 254, 255]):
         m = rb(ln)
@@ -124,6 +143,13 @@ def gen(c):
     for cname, pt in classes.items():
         fb = ct_der(pt, C3, C2)
         add({"op": "decrypt", "iface": "der", "d": i2b(d), "ct": fb}, decrypt_case(d, fb, "c1:%s" % cname, "der"))
+    # the all-zero C1 again, this time with C2 / C3 made consistent with the degenerate shared point a decoder would compute for it (infinity, read back as
+    # x2 = y2 = 0): the forger needs no key for this, so only the check on C1 itself can refuse it
+    for ln in (1, 14, 33):
+        mm = rb(ln); z = bytes(32)
+        forged = ct_der((0, 0), sm3(z + mm + z), bytes(u ^ v for u, v in zip(mm, kdf(z + z, ln))))
+        for iface in ("der", "do", "ctx"):
+            add({"op": "decrypt", "iface": iface, "d": i2b(d), "ct": forged, "chunks": "%d" % (len(forged) // 2)}, decrypt_case(d, forged, "c1:zero_zero_consistent:%s:len%d" % (iface, ln), iface))
     # C3 / C2 modifications, C2 lengths 255 and 256
     add({"op": "decrypt", "iface": "der", "d": i2b(d), "ct": ct_der(C1, bytes([C3[0] ^ 1]) + C3[1:], C2)}, decrypt_case(d, ct_der(C1, bytes([C3[0] ^ 1]) + C3[1:], C2), "c3:flipped", "der"))
     for ln in (255, 256):
@@ -187,7 +213,11 @@ def body():
             # four 64-bit limbs, i.e. little-endian on this platform; rejected when 0 or >= n);
             # the table interface uses the slot-th nonce of its eight, every other interface the last one it drew
             ks = [k for k in (int.from_bytes(bytes(ev.get("draws32", [])[i:i + 32]), "little") for i in range(0, len(ev.get("draws32", [])), 32)) if 0 < k < n]
-            k = (ks[case["slot"]] if len(ks) > case["slot"] else None) if case["iface"] == "pre" else (ks[-1] if ks else None)
+            su = ev.get("slotused", -1) if ev.get("slotused", -1) >= 0 else case.get("slot", 0)
+            k = (ks[su] if len(ks) > su else None) if case["iface"] == "pre" else (ks[-1] if ks else None)
+            if case.get("forced") and k == case["forced"]:
+                c.violation(key + ":zerostream", "the ciphertext was made with a nonce whose key stream is all zero (C2 = M in clear)", {"line": line, "event": ev})
+                continue
             if k is None or mul(k, G) != (C1[0], C1[1]):
                 c.violation(key + ":nonce", "C1 of the ciphertext is not [k]G for the nonce drawn from the entropy source (%d draws logged)" % len(ks), {"line": line, "event": ev})
                 continue
